@@ -36,10 +36,10 @@ TIERS = {
     # units per tier (each unit = one scenario under several schedules)
     "C02": {"quick": 2400, "thorough": 24000},
     "C03": {"quick": 8000, "thorough": 100000},
-    "C04": {"quick": 3200, "thorough": 64000},
-    "C05": {"quick": 6000, "thorough": 120000},
-    "C06": {"quick": 3200, "thorough": 64000},
-    "C07": {"quick": 3200, "thorough": 64000},
+    "C04": {"quick": 6400, "thorough": 64000},
+    "C05": {"quick": 9000, "thorough": 120000},
+    "C06": {"quick": 9600, "thorough": 64000},
+    "C07": {"quick": 6400, "thorough": 64000},
 }
 WALL_CAP = {"quick": 240, "thorough": 3000}
 
